@@ -54,6 +54,9 @@ SubCommandCases ==
     \cup {RawCase(<<10>> \o Enc(CMap(<< <<CU(1), v>> >>)), "cm-subcommand-wide") : v \in WideWithValidLowByte}
     \cup {RawCase(<<6>> \o Enc(CMap(<< <<CU(1), CU(1)>>, <<CU(2), CU(n)>> >>)), "pin-subcommand-byte") : n \in 0..255}
     \cup {RawCase(<<10>> \o Enc(CMap(<< <<CU(1), CU(n)>> >>)), "cm-subcommand-byte") : n \in 0..255}
+    \* the prototype command byte shares the table
+    \cup {RawCase(<<65>> \o Enc(CMap(<< <<CU(1), CU(n)>> >>)), "cm-subcommand-byte-0x41") : n \in 0..255}
+    \cup {RawCase(<<65>> \o Enc(CMap(<< <<CU(1), v>> >>)), "cm-subcommand-wide-0x41") : v \in WideWithValidLowByte}
 
 PermCases == {[op |-> "permissions", tag |-> "permissions", n |-> n] : n \in 0..255}
 StatusCases == {[op |-> "status_codes", tag |-> "status-codes"], [op |-> "defaults", tag |-> "defaults"]}
